@@ -193,7 +193,6 @@ static void report_fds(void) {
   struct out o; o.n = 0;
   for (int fd = 0; fd < 1024; fd++) {
     struct kstat st;
-    if (fd == rfd) continue;
     i64 r = sc2(SYS_fstat, fd, &st);
     if (r < 0) continue;
     os(&o, "F "); oi(&o, fd); oc(&o, ' '); ou(&o, st.dev); oc(&o, ' '); ou(&o, st.ino); oc(&o, ' '); ou(&o, st.mode);
